@@ -340,6 +340,17 @@ def groupOp (g : GroupCtx F) (op : String) (args : List String) : Option String 
       pure (match deserAffine g.cc bs (c == "1") with
         | .error e => "ERR:" ++ e.toString
         | .ok (a, rest) => A.shw a ++ " " ++ toString (bs.length - rest.length))
+  | "deser_aff_ch", [bs, c, _] => do
+      -- chunked reader: `read_exact` semantics are independent of how the reader splits its data
+      let bs ← parseBytes bs
+      pure (match deserAffine g.cc bs (c == "1") with
+        | .error e => "ERR:" ++ e.toString
+        | .ok (a, rest) => A.shw a ++ " " ++ toString (bs.length - rest.length))
+  | "deser_jac_ch", [bs, c, _] => do
+      let bs ← parseBytes bs
+      pure (match deserJac g.cc bs (c == "1") with
+        | .error e => "ERR:" ++ e.toString
+        | .ok (p, rest) => showJac g p ++ " " ++ toString (bs.length - rest.length))
   | "deser_jac", [bs, c] => do
       let bs ← parseBytes bs
       pure (match deserJac g.cc bs (c == "1") with
@@ -472,6 +483,16 @@ def miscOp (op : String) (args : List String) : Option String :=
       pure (match deserFr bs with
         | .error e => "ERR:" ++ e.toString
         | .ok (a, rest) => frIO.shw a ++ " " ++ toString (bs.length - rest.length))
+  | "deser_fr_ch", [bs, _] => do
+      let bs ← parseBytes bs
+      pure (match deserFr bs with
+        | .error e => "ERR:" ++ e.toString
+        | .ok (a, rest) => frIO.shw a ++ " " ++ toString (bs.length - rest.length))
+  | "deser_fq12_ch", [bs, _] => do
+      let bs ← parseBytes bs
+      pure (match deserFq12 bs with
+        | .error e => "ERR:" ++ e.toString
+        | .ok (a, rest) => fq12IO.shw a ++ " " ++ toString (bs.length - rest.length))
   | "ser_fq12", [a] => do let a ← fq12IO.parse a; pure (showBytes (serFq12 a))
   | "deser_fq12", [bs] => do
       let bs ← parseBytes bs
